@@ -7,15 +7,15 @@ from concurrent.futures import ProcessPoolExecutor
 
 sys.path.insert(0, os.path.dirname(os.path.dirname(os.path.abspath(__file__))))
 from cxa.index import AnalysisError, Index  # noqa: E402
+from cxa.report import run_property  # noqa: E402
 
 ALL = [f"C{i:02d}" for i in range(1, 21) if i != 7]
 
 
 def run(args):
     p, repo = args
-    mod = importlib.import_module(f"cxa.props.{p.lower()}")
     try:
-        res = mod.run(Index(repo))
+        res = run_property(p, Index(repo))
     except AnalysisError as e:
         return p, repo, None, [f"ANALYSIS-ERROR {e}"], []
     counts = {k: v["instances"] for k, v in res.rules.items()}
